@@ -493,7 +493,7 @@ class Mode:
 
 
 PURE_BUILTINS = {"len", "isinstance", "id", "hasattr", "bool", "tuple", "frozenset", "min", "max", "abs", "callable", "type", "iter", "int"}
-SPEC_FUNCS = {"implies", "old", "call", "call2", "all", "any", "no_dups", "seq", "setof", "filt", "addall", "cat", "forall", "exists",
+SPEC_FUNCS = {"entry", "implies", "old", "call", "call2", "all", "any", "no_dups", "seq", "setof", "filt", "addall", "cat", "forall", "exists",
               "is_tuple", "ite", "fresh", "contents", "keys", "dget", "dhas", "rng", "idof", "rev", "prefix", "isinst", "truth",
               "subseq_of", "perm", "count", "sorted_by", "index", "pair", "slice_adj", "typeis", "allocated", "ghost"}
 
@@ -1125,6 +1125,14 @@ def _patch_engine():
             raise ContractError("old() outside a postcondition")
         return self.pev(node.args[0], m.old, Mode(True, None, None, m.result, m.binds, m.under))
     E.sf_old = sf_old
+
+    def sf_entry(self, node, st, m):
+        """entry(e): e evaluated in the state at entry of the loop whose invariant is being stated"""
+        es = m.binds.get("$entry")
+        if es is None:
+            raise ContractError("entry() outside a loop invariant")
+        return self.pev(node.args[0], es.py, Mode(True, m.old, None, m.result, m.binds, m.under))
+    E.sf_entry = sf_entry
 
     def sf_call(self, node, st, m):
         f = self.pev(node.args[0], st, m)
@@ -2193,6 +2201,7 @@ def _patch_loops():
     E.inv_clauses = inv_clauses
 
     def check_inv(self, k_ord, st, binds, node, tag):
+        binds = dict(binds, **{"$entry": SV("py", py=st.ghost.get(f"$loop{k_ord}_entry", self.st0))})
         m = Mode(True, self.st0, None, None, dict(binds, out=SV("seq", st.out)) if st.out is not None else binds)
         for i, cl in enumerate(self.inv_clauses(k_ord)):
             g = self.truth(self.pev(ast.parse(cl, mode="eval").body, st, m), st)
@@ -2200,6 +2209,7 @@ def _patch_loops():
     E.check_inv = check_inv
 
     def assume_inv(self, k_ord, st, binds):
+        binds = dict(binds, **{"$entry": SV("py", py=st.ghost.get(f"$loop{k_ord}_entry", self.st0))})
         m = Mode(True, self.st0, None, None, dict(binds, out=SV("seq", st.out)) if st.out is not None else binds)
         fs = [self.truth(self.pev(ast.parse(cl, mode="eval").body, st, m), st) for cl in self.inv_clauses(k_ord)]
         return st.assume(*fs) if fs else st
@@ -2304,7 +2314,7 @@ def _patch_loops():
 
     def ex_While(self, s, st, ctx):
         k_ord = self.loop_ordinals[id(s)]
-        st_entry = st
+        st_entry = st.copy(ghost=dict(st.ghost, **{f"$loop{k_ord}_entry": st}))
         self.check_inv(k_ord, st_entry, {}, s, "entry")
         sth = self.havoc_loop(s, st_entry, k_ord)
         sth = self.assume_inv(k_ord, sth, {})
